@@ -65,8 +65,8 @@ def c18():
 
 
 def c01():
-    from harness import lookup
-    return [lookup.NameLookup()]
+    from harness import lookup, pipeline
+    return [lookup.NameLookup(), pipeline.CompileRun()]
 
 
 def c03():
